@@ -216,7 +216,7 @@ check("C06",
       rule="finite configuration space closed completely in both tiers: every node instance built by every row of the factory "
            "table plus the implementation classes no factory returns (27 built-ins, 5 symbolic constants, decltype(nullptr), empty "
            "string, reserved-word identifiers, Type_id of composite types, typed-sequence products, homogeneous scopes/regions, singleton "
-           "and heterogeneous overload sets, handler blocks, global namespace) x {category; accept with a visitor overriding all 159 leaf "
+           "and heterogeneous overload sets, handler blocks, global namespace) (classic expressions also with their implementation() link set to a declaration) x {category; accept with a visitor overriding all 159 leaf "
            "hooks + 8 abstract ones; a visitor overriding only the 7 pure sinks; one also overriding visit(Classic); view<K> for all 159 "
            "K}. distinct_nontrivial = distinct implementation classes (typeid) examined.",
       text="Complete enumeration of a finite configuration space on the real nodes; expectations are computed from the "
